@@ -226,11 +226,34 @@ def run(ctx):
                     consts = ''.join(parts)
             ctx.check(consts == FIXED, 'C09.3', 'value:fixed-formula', f.loc(n), 'fixed-point conversion is libwayland\'s wl_fixed_to_double formula applied to the union value',
                       'fixed-point formula is %r, wl_fixed_to_double is %r' % (consts, FIXED))
+        def helper_bodies(arg_text):
+            """source text of module-level helpers called in this branch with `arg_text` as their only argument"""
+            out = []
+            for s_ in body:
+                for x in ast.walk(s_):
+                    if isinstance(x, ast.Call) and isinstance(x.func, ast.Name) and len(x.args) == 1 and norm(x.args[0]) == arg_text:
+                        r_ = repo.lookup(f.module, x.func.id)
+                        if r_ and r_[0] == 'func':
+                            out.append((x, '\n'.join(norm(b) for b in r_[1].node.body), r_[1].params()[0]))
+            return out
         if 's' in codes:
-            guarded = any(isinstance(s, ast.If) and '_is_null(%s)' % vname in norm(s.test) for s in body)
-            ctx.check(guarded and '%s.string()' % vname in txt, 'C09.3', 'value:string-null-guard', f.loc(n), 'the string is read only when the pointer is not null')
+            guarded = any(isinstance(s, ast.If) and '_is_null(%s)' % vname in norm(s.test) for s in body) and '%s.string()' % vname in txt
+            via = None
+            for call, htxt, hp in helper_bodies(vname):
+                if '_is_null(%s)' % hp in htxt and '%s.string()' % hp in htxt:
+                    via = call
+            if via is not None and not guarded:
+                # helper form: its None result must be tested with `is None`, not by truthiness (an empty string is a string)
+                par = getattr(via, '_parent', None)
+                truthy = isinstance(par, ast.BoolOp) or (isinstance(par, ast.IfExp) and par.test is via) or (isinstance(par, ast.If) and par.test is via) or (isinstance(par, ast.UnaryOp))
+                ctx.check(not truthy, 'C09.3', 'value:string-null-guard', f.loc(n), 'the string is read through a null-guarding helper and only a null pointer gets the placeholder',
+                          'the string value is tested by truthiness (`%s`): a non-null empty string is reported as the null-string placeholder, log mode decodes ""' % norm(par)[:80])
+            else:
+                ctx.check(guarded, 'C09.3', 'value:string-null-guard', f.loc(n), 'the string is read only when the pointer is not null')
         if 'o' in codes or 'n' in codes:
-            ctx.check('%s[%s]' % (types_name, cur) in txt and "['name'].string()" in txt and '_is_null(' in txt, 'C09.3', 'value:%s-interface' % ''.join(sorted(codes)), f.loc(n),
+            inline = '%s[%s]' % (types_name, cur) in txt and "['name'].string()" in txt and '_is_null(' in txt
+            viah = any('_is_null(%s)' % hp in htxt and "%s['name'].string()" % hp in htxt for call, htxt, hp in helper_bodies('%s[%s]' % (types_name, cur)))
+            ctx.check(inline or viah, 'C09.3', 'value:%s-interface' % ''.join(sorted(codes)), f.loc(n),
                       'the declared interface comes from the message\'s type array at the same cursor (nil when absent)')
         if 'o' in codes:
             ctx.check("_fast_access(%s, 'wl_object.id')" % vname in txt, 'C09.3', 'value:object-id', f.loc(n), 'object ids are read from wl_object.id of the union value')
